@@ -47,6 +47,13 @@ fn hist(thorough: bool, elems: bool, ranges: bool, capacity: bool, clones: bool)
     }
 }
 
+#[cfg(feature = "alloc")]
+fn scale(ctx: &mut Ctx) {
+    crate::scale::run(ctx)
+}
+#[cfg(not(feature = "alloc"))]
+fn scale(_ctx: &mut Ctx) {}
+
 pub fn run(ctx: &mut Ctx) {
     let mut cfgs = configs::all();
     if ctx.sub == "light" || ctx.tool_mode {
@@ -73,10 +80,14 @@ pub fn run(ctx: &mut Ctx) {
         "C01" => {
             fam::exhaustive(ctx, "elem", &cfgs, l, true, &fam::elem_seqs);
             fam::histories(ctx, "elem-hist", &cfgs, &hist(thorough, true, false, true, false));
+            scale(ctx);
         }
         "C02" => {
             fam::exhaustive(ctx, "range", &cfgs, l, true, &fam::range_ops);
             fam::histories(ctx, "range-hist", &cfgs, &hist(thorough, false, true, false, false));
+            scale(ctx);
+            crate::special::c14_large(ctx);
+            scale(ctx);
         }
         "C03" => {
             fam::exhaustive(ctx, "elem", &cfgs, l.min(5), false, &fam::elem_seqs);
@@ -84,11 +95,13 @@ pub fn run(ctx: &mut Ctx) {
             fam::exhaustive(ctx, "clone", &cfgs, 3, false, &fam::clone_ops);
             fam::exhaustive(ctx, "lazy", &cfgs, 2, false, &fam::lazy_ops);
             fam::histories(ctx, "mixed-hist", &cfgs, &hist(thorough, true, true, true, true));
+            scale(ctx);
         }
         "C08" => {
             cfgs.retain(|c| c.cloneable);
             fam::exhaustive(ctx, "clone", &cfgs, l, false, &fam::clone_ops);
             crate::special::c08_clone_from(ctx);
+            scale(ctx);
         }
         "C09" => {
             cfgs.retain(|c| c.cloneable);
@@ -99,6 +112,7 @@ pub fn run(ctx: &mut Ctx) {
             fam::exhaustive(ctx, "capacity", &cfgs, l, false, &fam::cap_ops);
             fam::histories(ctx, "capacity-hist", &cfgs, &hist(thorough, true, true, true, false));
             crate::special::c10_amortised(ctx);
+            crate::special::c10_large(ctx);
         }
         "C04" => crate::special::c04(ctx),
         "C12" => {
@@ -112,10 +126,12 @@ pub fn run(ctx: &mut Ctx) {
                 fam::exhaustive(ctx, "elem", &sub, 3, false, &fam::elem_seqs);
                 fam::histories(ctx, "mixed-hist", &sub, &hist(thorough, true, true, true, true));
             }
+            scale(ctx);
         }
         "C14" => {
             fam::exhaustive(ctx, "iter", &cfgs, l, false, &fam::iter_ops);
             fam::exhaustive(ctx, "range", &cfgs, l, false, &fam::range_ops);
+            crate::special::c14_large(ctx);
         }
         "C05" => {
             use hvcore::rigapi::MemKind;
@@ -190,6 +206,7 @@ pub fn run(ctx: &mut Ctx) {
             fam::exhaustive(ctx, "handle", &cfgs, l, true, &fam::handle_ops);
             // the i-th iterator item is the i-th element, also when reached by nth / nth_back / after clones
             fam::exhaustive(ctx, "iter", &cfgs, l.min(4), false, &fam::iter_ops);
+            scale(ctx);
         }
         "C17" => {
             cfgs.retain(|c| c.mem == hvcore::rigapi::MemKind::Heap);
